@@ -239,7 +239,7 @@ def confirm(run, v):
     if v['rule'] == 'RUNTIME':
         st = {'decls': v['decls'], 'attrs': v.get('attrs') or []}
         sp = [[v['spelling']] if k == v['decl'] else [] for k in range(len(v['decls']))]
-        fails = compile_probe.run_sets([st], sp)
+        fails = compile_probe.run_sets([st], [sp])
         return bool(fails), {'declarations': v['decls'], 'attrs': st['attrs'], 'spelling': v['spelling'], 'observed': fails}
     decls = v['decls']
     attrs = v.get('attrs') or []
